@@ -5,6 +5,7 @@ namespace Bct.Modularity
 open Finset
 
 variable {n : ℕ}
+variable {g0 : GState}
 
 /-- the signed objective matrix `d0·(W0 − γ k0 k0ᵀ/s0) − d1·(W1 − γ k1 k1ᵀ/s1)` -/
 def Bpair (W0 W1 : RMat n) (s0 s1 d0 d1 γ : ℚ) : RMat n :=
@@ -186,7 +187,7 @@ theorem qSignOuter_eq (t : QType) (W : RMat n) (γ : ℚ) (hW : Symm W) (c c' : 
 
 /-- **modularity_finetune_und_sign: C02 + C07 for the model.** -/
 theorem finetuneSign_spec (t : QType) (W : RMat n) (γ : ℚ) (c0 : Fin n → ℤ) (ds : List ℕ) (out : Out n)
-    (hW : Symm W) (h : finetuneSign t W γ c0 ds = .ok out) :
+    (hW : Symm W) (h : finetuneSign t W γ c0 ds g0 = .ok out) :
     ∀ p ∈ out.levels, p.2 = Qsign t W γ (labOf p.1) ∧ Qsign t W γ c0 ≤ Qsign t W γ (labOf p.1) := by
   unfold finetuneSign at h
   obtain ⟨c, hc, _⟩ := toLab_ok c0
@@ -308,7 +309,7 @@ every `γ` and every sequence of visiting orders, every level the routine comput
 reports exactly the signed modularity of its partition, which is at least that of the all-singletons
 start.  The first entry of `out.levels` is the sentinel `(singletons, 0)`. -/
 theorem louvainSign_spec (t : QType) (W : RMat n) (γ : ℚ) (ds : List ℕ) (out : Out n)
-    (hW : Symm W) (h : louvainSign t W γ ds = .ok out) :
+    (hW : Symm W) (h : louvainSign t W γ ds g0 = .ok out) :
     ∀ p ∈ out.levels, p = (idLab n, 0) ∨
       (p.2 = Qsign t W γ (labOf p.1) ∧ Qsign t W γ (id : Fin n → Fin n) ≤ Qsign t W γ (labOf p.1)) := by
   unfold louvainSign at h
@@ -323,7 +324,7 @@ theorem louvainSign_spec (t : QType) (W : RMat n) (γ : ℚ) (ds : List ℕ) (ou
     have hI : SLvInv (posPart W) (negPart W) (adj (total (posPart W))) (adj (total (negPart W)))
         (scales t (total (posPart W)) (total (negPart W))).1 (scales t (total (posPart W)) (total (negPart W))).2 γ
         (posPart W) (negPart W)
-        { nh := n, ci := idLab n, qprev := -1, acc := [(idLab n, 0)], moves := 0, ties := 0 } := by
+        { nh := n, ci := idLab n, qprev := -1, acc := [(idLab n, 0)], moves := 0, ties := 0, g := g0 } := by
       refine ⟨posPart_symm W hW, negPart_symm W hW, ?_, ?_, ?_⟩
       · intro c'; simp only [labOf_idLab, id_eq]
       · simp only [labOf_idLab]; exact le_rfl
@@ -371,7 +372,7 @@ theorem Qobj_objMatrix {α : Type} [DecidableEq α] (W : RMat n) (γ : ℚ) (obj
 /-- `modularity_probtune_und_sign` reports the signed modularity of the partition it returns (whatever
 random moves it made) -/
 theorem probtuneSign_spec (t : QType) (W : RMat n) (γ p : ℚ) (c0 : Fin n → ℤ) (ds : List ℕ) (out : Out n)
-    (hW : Symm W) (h : probtuneSign t W γ p c0 ds = .ok out) :
+    (hW : Symm W) (h : probtuneSign t W γ p c0 ds g0 = .ok out) :
     ∀ l ∈ out.levels, l.2 = Qsign t W γ (labOf l.1) := by
   unfold probtuneSign at h
   obtain ⟨c, hc, _⟩ := toLab_ok c0
@@ -398,7 +399,7 @@ theorem probtuneSign_spec (t : QType) (W : RMat n) (γ p : ℚ) (c0 : Fin n → 
 /-- `modularity_finetune_dir` reports the directed modularity of the partition it returns (C02 holds for
 it although its gains are wrong on directed input, see `Bct.C07.finetune_dir_defect_witness`) -/
 theorem finetuneDir_q (W : RMat n) (γ : ℚ) (c0 : Fin n → ℤ) (ds : List ℕ) (out : Out n)
-    (h : finetuneDir W γ c0 ds = .ok out) :
+    (h : finetuneDir W γ c0 ds g0 = .ok out) :
     ∀ l ∈ out.levels, l.2 = Qdir W γ (labOf l.1) := by
   unfold finetuneDir at h
   obtain ⟨c, hc, _⟩ := toLab_ok c0
